@@ -577,7 +577,9 @@ func Run(c *evid.Ctx) {
 	getters(c)
 	writeBack(c)
 	crashImages(c)
-	// getters concurrent with a reload: race mode of E1 in the -race build (race.go)
+	// getters concurrent with a reload: what a snapshot getter may see (ordinary build, every schedule),
+	// and the race mode of E1 in the -race build (race.go)
+	tornSnapshots(c)
 	shard.SpawnRace(c, 4)
 	c.Count("evaluations", c.Counter("states"))
 	c.Count("distinct_nontrivial", c.Counter("states")+c.Counter("writeback_cases"))
